@@ -41,6 +41,14 @@ theorem C20_ranges_partition_holds : C20_ranges_partition := by
 theorem C20_ranges_refuse (b e f : Nat) (h : e < b) : calcRange b e f = none := by
   simp [calcRange, h]
 
+/-- **the synchronised stream**: with peers that answer, `SyncCFTBlocks(begin, end)` / `SyncBFTBlocks` hand on exactly the
+blocks `begin, begin+1, …, end`, each once, in ascending order, followed by the end marker, and the answered requests are the
+ranges of `C20_ranges_partition` -/
+theorem C20_sync_stream_each_height_once (b e f : Nat) (hf : 0 < f) (hbe : b ≤ e) :
+    ∃ rs, syncStream b e f = some (rs, (List.range' b (e + 1 - b)).map some ++ [none]) ∧ heights rs = List.range' b (e + 1 - b) := by
+  obtain ⟨rs, h1, h2, _⟩ := C20_ranges_partition_holds b e f hf hbe
+  exact ⟨rs, by simp [syncStream, h1, h2], h2⟩
+
 /-- non-vacuity / shape witness (the `fetch+1` bound is tight: begin a multiple of fetch) -/
 example : calcRange 10 23 5 = some [⟨10, 15⟩, ⟨16, 20⟩, ⟨21, 23⟩] := by decide
 
